@@ -22,6 +22,13 @@ CHECKS = {
         "Says nothing off the lattice. Tolerances from the library's TOL=1e-7 and scipy brentq's xtol. Reference model mc/props/c03.py.",
         "DESIGN.md 5 C03",
     ),
+    "C04": (
+        "model_checking",
+        "exhaustive enumeration of a finite configuration space on the real library: 2-3 block assemblies with unequal edge lengths x chop kind x preserve mode x single/multi-section x 24 corner numberings per neighbouring block; the written dictionary alone is decoded with an independent blockMesh progression model",
+        "For every configuration the file is parsed, every block's simple/edgeGrading is decoded onto its 12 edges (lengths from written vertices / three-point arcs), and the physical cell-size sequence of each geometric edge must be the same from every block; a preserved first/last cell size must be realised on every edge of the family at the geometrically same end (and equal the user's value when given).",
+        "Trusted: foamdict reader, blockMesh progression/multi-grading model and arc-length computation in mc/blockmesh_ref.py, family model. <=3 blocks per chain; edge kinds line/arc.",
+        "DESIGN.md 5 C04",
+    ),
     "C02": (
         "model_checking",
         "stateless model checking of the implementation: choice-point explorer over set iteration orders (iterative deviation bounding) x exhaustive insertion orders / corner numberings / chop placements of small lattice assemblies, edge-family reference model",
